@@ -1133,6 +1133,63 @@ def r914(ctx):
                 ctx.ok(rid, r, f"shoot: every path to acceptance passes {name}")
 
 
+def r917(ctx):
+    """High-acceptance swap: p = w0(path1) * w1(path0) / (w0(path0) * w1(path1)), where w_k is the
+    weight in ensemble k - computed with that ensemble's interfaces *and* that ensemble's move.
+    Every compute_weight call of high_acc_swap pairs `intf<k>` with `ens_moves[k]`; the four calls
+    cover the four (path, ensemble) combinations; the ratio has the exchanged pairs in the
+    numerator and the current pairs in the denominator."""
+    from .c16 import _mono
+    rid = "R-9.17"
+    f = ctx.tree.func(TIS, "high_acc_swap")
+    params = [a.arg for a in f.args.args]
+    if len(params) < 5:
+        raise AnalysisError("R-9.17: high_acc_swap does not take (paths, rgen, intf0, intf1, ens_moves)")
+    pths, _rg, i0, i1, mv = params[:5]
+    intf_of = {i0: 0, i1: 1}
+    combos = {}
+    for st in walk_local(f):
+        if not (isinstance(st, ast.Assign) and len(st.targets) == 1 and isinstance(st.targets[0], ast.Name) and isinstance(st.value, ast.Call) and last_name(st.value) == "compute_weight"):
+            continue
+        c = st.value
+        if len(c.args) < 3:
+            raise AnalysisError("R-9.17: compute_weight call without (path, interfaces, move)")
+        pa, ia, ma = c.args[:3]
+        _fl = flow_of(f)
+
+        def _res(x):
+            if isinstance(x, ast.Name) and x.id not in params:
+                try:
+                    x2, _ = deref(_fl, x, _fl.cfg.node_of(st))
+                    return x2
+                except Exception:
+                    return x
+            return x
+
+        pa, ia, ma = _res(pa), _res(ia), _res(ma)
+        if not (isinstance(pa, ast.Subscript) and isinstance(pa.value, ast.Name) and pa.value.id == pths and isinstance(pa.slice, ast.Constant) and isinstance(ia, ast.Name) and ia.id in intf_of
+                and isinstance(ma, ast.Subscript) and isinstance(ma.value, ast.Name) and ma.value.id == mv and isinstance(ma.slice, ast.Constant)):
+            raise AnalysisError(f"R-9.17: `{short(c, 60)}` is not compute_weight(paths[a], intf<k>, ens_moves[j]) (cannot decide)")
+        a, k, j = pa.slice.value, intf_of[ia.id], ma.slice.value
+        if k != j:
+            ctx.bad(rid, c, f"high_acc_swap computes a weight in ensemble {k} (interfaces `{ia.id}`) with the move of ensemble {j} (`{short(ma, 20)}`): with `wf` in one ensemble and `sh` in the other the weight is 0/1 instead of the wire-fencing count (or the reverse), so a new path with weight 0 in its ensemble can be accepted", construct=f"high_acc_swap: {short(c, 60)}")
+        else:
+            ctx.ok(rid, c, f"high_acc_swap: weight of paths[{a}] in ensemble {k} uses that ensemble's interfaces and move")
+        combos[st.targets[0].id] = (a, k)
+    if sorted(combos.values()) != [(0, 0), (0, 1), (1, 0), (1, 1)]:
+        ctx.bad(rid, f, f"high_acc_swap does not compute the four weights (path a in ensemble k), found {sorted(combos.values())}", construct="high_acc_swap: weight combinations")
+        return
+    ratios = [st for st in walk_local(f) if isinstance(st, ast.Assign) and isinstance(st.value, ast.BinOp) and {n.id for n in ast.walk(st.value) if isinstance(n, ast.Name)} >= set(combos)]
+    if len(ratios) != 1:
+        raise AnalysisError(f"R-9.17: {len(ratios)} expressions combine the four weights (expected the acceptance ratio)")
+    mono = _mono(ratios[0].value, {})
+    want = {n: (1 if a != k else -1) for n, (a, k) in combos.items()}
+    if mono is not None and mono[0] == 1 and mono[1] == want:
+        ctx.ok(rid, ratios[0], "acceptance ratio = w0(path1) * w1(path0) / (w0(path0) * w1(path1))")
+    else:
+        ctx.bad(rid, ratios[0], f"the acceptance ratio `{short(ratios[0].value, 60)}` is not (weights after the exchange) / (weights before the exchange)", construct="high_acc_swap: acceptance ratio")
+
+
 def run(ctx):
     ctx.rule("R-9.6", "a wire-fencing extension whose success flag is discarded is covered by a length test that rejects every truncated extension (linear arithmetic on lengths)", floor=1)
     ctx.rule("R-9.7", "positional role agreement in the move functions: (start, end, middle, cross), (success, status), (shooting_point, idx, dek), (n_frames, new_segment), (accept, paths, status) are unpacked / passed at the callee's positions", floor=20)
@@ -1151,6 +1208,8 @@ def run(ctx):
     ctx.attempt(r92, ctx)
     ctx.attempt(r93, ctx, moves)
     ctx.attempt(r94, ctx)
+    ctx.rule("R-9.17", "high-acceptance swap: each weight uses the interfaces and the move of one ensemble; ratio = exchanged / current", floor=5)
+    ctx.attempt(r917, ctx)
     ctx.attempt(r95, ctx)
     ctx.attempt(r96, ctx)
     ctx.attempt(r98, ctx)
@@ -1177,6 +1236,9 @@ def run(ctx):
 
 
 VARIANTS = [
+    B("c09-swap-weight-with-other-ensembles-move", TIS, "    c2_new = compute_weight(paths[0], intf1, ens_moves[1])", "    c2_new = compute_weight(paths[0], intf1, ens_moves[0])", "R-9.17", control=True, why="seeded C09_k"),
+    B("c09-swap-ratio-inverted", TIS, "        p_swap_acc = c1_new * c2_new / (c1_old * c2_old)", "        p_swap_acc = c1_old * c2_old / (c1_new * c2_new)", "R-9.17"),
+    K("c09-keep-swap-ratio-reordered", TIS, "        p_swap_acc = c1_new * c2_new / (c1_old * c2_old)", "        p_swap_acc = (c1_new / c1_old) * (c2_new / c2_old)"),
     B("c09-wf-no-segment-verdict-on-other-object", TIS, "        # No usable segments were generated.\n        trial_path.status = \"NSG\"", "        # No usable segments were generated.\n        new_segment.status = \"NSG\"", "R-9.16", control=True, why="seeded C09_h"),
     B("c09-restarted-paths-exempt-from-length-rule", TIS, '    if path.get_move() == "ld" or ens_set["tis_set"].get(', '    if path.get_move() in ("ld", "re") or ens_set["tis_set"].get(', "R-9.15", control=True, why="seeded C09_g"),
     B("c09-no-crossing-check", TIS, "    elif not trial_path.check_interfaces(interfaces)[-1][1]:\n        # No, we did not cross the middle interface:", "    elif False:\n        # No, we did not cross the middle interface:", "R-9.14", control=True),
